@@ -1182,14 +1182,36 @@ func (f *FuncCFG) resolve(e ast.Expr, pt Point, intoHelpers bool) (ast.Expr, Poi
 				if _, baseIsIdent := ast.Unparen(se.X).(*ast.Ident); baseIsIdent {
 					be, bpt := f.resolve(se.X, pt, intoHelpers)
 					if be != se.X {
-						// only a struct VALUE (a result record); an object behind a pointer has mutable fields
+						// a struct VALUE (a result record), or an object behind a pointer whose field is never
+						// assigned anywhere in the package after construction (a parameter object)
 						lit, _ := ast.Unparen(be).(*ast.CompositeLit)
+						if u, isAddr := ast.Unparen(be).(*ast.UnaryExpr); lit == nil && isAddr && u.Op == token.AND {
+							if fv, isVar := sel.Obj().(*types.Var); isVar && !f.P.fieldEverAssigned(f.Info, fv) {
+								lit, _ = ast.Unparen(u.X).(*ast.CompositeLit)
+							}
+						}
+						// ... or the value a record constructor of the package builds (`return &T{f: param, ...}`):
+						// the field's initialiser with the constructor's parameters replaced by the arguments
+						var bind map[types.Object]ast.Expr
+						if c, isCall := ast.Unparen(be).(*ast.CallExpr); lit == nil && isCall {
+							if cl, isPtr, b := constructorLiteral(f.P, f.Info, c); cl != nil {
+								if fv, isVar := sel.Obj().(*types.Var); isVar && (!isPtr || !f.P.fieldEverAssigned(f.Info, fv)) {
+									lit, bind = cl, b
+								}
+							}
+						}
 						if lit != nil {
 							found := false
 							for _, el := range lit.Elts {
 								if kv, isKV := el.(*ast.KeyValueExpr); isKV {
 									if k, isId := kv.Key.(*ast.Ident); isId && k.Name == se.Sel.Name {
-										e, pt, found = kv.Value, bpt, true
+										v := kv.Value
+										if bind != nil {
+											v = cloneWithSubst(f.Info, v, bind)
+										}
+										if v != nil {
+											e, pt, found = v, bpt, true
+										}
 									}
 								}
 							}
@@ -3729,4 +3751,104 @@ func (cb callbackBody) Captured(p *Prog, info *types.Info, e ast.Expr, scope ast
 		}
 	}
 	return nil
+}
+
+// fieldEverAssigned: is the struct field written anywhere in its package other than in a composite
+// literal (assignment, ++/--, op=, or its address taken)? Fields that are not are fixed at
+// construction: a read through a pointer to the constructed value yields the initialiser.
+func (p *Prog) fieldEverAssigned(info *types.Info, fv *types.Var) bool {
+	if p == nil {
+		return true
+	}
+	if p.assignedFields == nil {
+		p.assignedFields = map[*types.Info]map[*types.Var]bool{}
+	}
+	m, ok := p.assignedFields[info]
+	if !ok {
+		m = map[*types.Var]bool{}
+		p.assignedFields[info] = m
+		mark := func(e ast.Expr) {
+			if se, ok := ast.Unparen(e).(*ast.SelectorExpr); ok {
+				if sel := info.Selections[se]; sel != nil && sel.Kind() == types.FieldVal {
+					if v, ok := sel.Obj().(*types.Var); ok {
+						m[v.Origin()] = true
+					}
+				}
+			}
+		}
+		for _, pk := range p.Pkgs {
+			if pk.TypesInfo != info {
+				continue
+			}
+			for _, file := range pk.Syntax {
+				ast.Inspect(file, func(n ast.Node) bool {
+					switch x := n.(type) {
+					case *ast.AssignStmt:
+						for _, l := range x.Lhs {
+							mark(l)
+						}
+					case *ast.IncDecStmt:
+						mark(x.X)
+					case *ast.UnaryExpr:
+						if x.Op == token.AND {
+							mark(x.X)
+						}
+					case *ast.RangeStmt:
+						if x.Key != nil {
+							mark(x.Key)
+						}
+						if x.Value != nil {
+							mark(x.Value)
+						}
+					}
+					return true
+				})
+			}
+		}
+	}
+	return m[fv.Origin()]
+}
+
+// constructorLiteral: call is a call of a function or method of the analysed package whose whole body
+// is `return T{...}` or `return &T{...}`: the literal, whether it is returned by address, and the
+// binding of the constructor's receiver and parameters to the call's receiver and arguments.
+func constructorLiteral(p *Prog, info *types.Info, call *ast.CallExpr) (*ast.CompositeLit, bool, map[types.Object]ast.Expr) {
+	if p == nil {
+		return nil, false, nil
+	}
+	fn := staticCallee(info, call)
+	if fn == nil {
+		return nil, false, nil
+	}
+	fd := p.decls().byFunc[fn.Origin()]
+	if fd == nil || fd.Body == nil || p.decls().infoOf[fd] != info || len(fd.Body.List) != 1 {
+		return nil, false, nil
+	}
+	rs, ok := fd.Body.List[0].(*ast.ReturnStmt)
+	if !ok || len(rs.Results) != 1 {
+		return nil, false, nil
+	}
+	res := ast.Unparen(rs.Results[0])
+	isPtr := false
+	if u, ok := res.(*ast.UnaryExpr); ok && u.Op == token.AND {
+		res, isPtr = ast.Unparen(u.X), true
+	}
+	cl, _ := res.(*ast.CompositeLit)
+	if cl == nil {
+		return nil, false, nil
+	}
+	b := map[types.Object]ast.Expr{}
+	for i, po := range paramObjs(info, fd) {
+		if po != nil && i < len(call.Args) {
+			b[po] = call.Args[i]
+		}
+	}
+	if fd.Recv != nil {
+		if ro := recvObj(info, fd); ro != nil {
+			if se, ok := ast.Unparen(call.Fun).(*ast.SelectorExpr); ok {
+				b[ro] = se.X
+			}
+		}
+	}
+	return cl, isPtr, b
 }
